@@ -25,6 +25,8 @@ fn dispatch(req: &Value) -> Value {
         "parse" => syn::parse(req),
         "fmt_template" => fmtops::fmt_template(req),
         "field_name" => fmtops::field_name(req),
+        "cfmt_split" => fmtops::cfmt_split(req),
+        "cfmt_cell" => fmtops::cfmt_cell(req),
         "args_conv" => astops::args_conv(req),
         "lex" => syn::lex(req),
         "locate_tree" => syn::locate_tree(req),
